@@ -7,7 +7,8 @@ PROPS["C05"] = P(
     "iteration cases over nine storage backings (fresh, popped, truncated, cleared+refilled, unaligned, raw with zero/ones/random garbage and 0-3 spare words); "
     "single-threaded AtomicBitFieldVec histories (set_atomic/get_atomic/rejected calls/round trips); width 0 through with_capacity and the macro forms in cases of their own. "
     "distinct_nontrivial = number of distinct cells (word type, exact width, constructor or backing or atomic round) whose case was non-degenerate: a history that grew, shrank and "
-    "set elements with more than one element alive; an iteration case with len > 1; an atomic history with at least one set_atomic on len > 1",
+    "set elements with more than one element alive; an iteration case with len > 1; an atomic history with at least one set_atomic on len > 1"
+    ' Iterator-protocol monitor on iter / iter_from; positioned iteration beyond the end must panic; extend from inexact size hints; the AtomicHelper short-name entry points; the memory orderings Relaxed, Acquire, SeqCst. ',
     dict(builds=["DBG", "UBC"]),
     dict(builds=["DBG", "UBC", "ASAN", "MIRI"], shards={"MIRI": 12, "ASAN": 8}),
     hang="violation",
